@@ -508,7 +508,11 @@ class PKey:
         return data
 
     def _read_private_key(self, tag, f, password=None):
-        lines = f.readlines()
+        try:
+            lines = f.readlines()
+        except UnicodeDecodeError:
+            # binary garbage, not a PEM-style text file
+            raise SSHException("not a valid {} private key file".format(tag))
         if not lines:
             raise SSHException("no lines in {} private key file".format(tag))
 
